@@ -176,6 +176,7 @@ impl Ldap {
     ) -> Result<(LdapResult, Exop, SaslCreds)> {
         let id = self.next_msgid();
         self.last_id = id;
+        self.search_opts = None;
         #[cfg(ldap3_verif)]
         crate::verif::sched_point().await;
         let (tx, rx) = oneshot::channel();
